@@ -43,6 +43,7 @@ const (
 	bAbandon  // free the channel after the request and a few messages, never read the response
 	bCancel   // cancel the call context after a delay
 	bRespOnly // call Response without reading the streamed messages
+	bFreeRace // free the channel while the send and receive loops are still running
 )
 
 // plan is the behaviour of one call; it travels to the handler inside the request payload.
@@ -69,10 +70,13 @@ type plan struct {
 
 	cliBehav   int
 	cliAsync   bool // receive with ReceiveAsync/ReceiveWait
+	srvAsync   bool // the handler receives with ReceiveAsync/ReceiveWait
 	cliDelayUs int  // client delay between messages
 	cancelUs   int  // bCancel: delay of the cancel
 	abandonN   int  // bAbandon: messages sent before the free
 	nCalls     int  // number of calls in the request (the last one carries the payload)
+	holdUs     int  // both sides: delay between receiving a message/result and copying it
+	freeUs     int  // bFreeRace: delay of the free
 
 	enc []byte // encoded plan (request payload)
 }
@@ -189,6 +193,9 @@ func (p *plan) encode() []byte {
 	e.i(p.cancelUs)
 	e.i(p.abandonN)
 	e.i(p.nCalls)
+	e.i(p.holdUs)
+	e.i(p.freeUs)
+	e.f(p.srvAsync)
 	return e.b
 }
 
@@ -218,6 +225,9 @@ func decodePlan(b []byte) (*plan, bool) {
 	p.cancelUs = d.i()
 	p.abandonN = d.i()
 	p.nCalls = d.i()
+	p.holdUs = d.i()
+	p.freeUs = d.i()
+	p.srvAsync = d.f()
 	if d.bad || len(d.b) != 0 || p.kind < 0 || p.kind >= numKinds {
 		return nil, false
 	}
@@ -394,6 +404,9 @@ func genPlan(r *hx.Rand, id uint64, cfg *genCfg) *plan {
 		p.nCalls = 2 + r.Intn(2)
 	}
 	p.preDelayUs = genDelay(r, cfg.maxDelayUs/2)
+	if r.Intn(3) == 0 {
+		p.holdUs = 1 + r.Intn(300)
+	}
 	p.delayUs = genDelay(r, cfg.maxDelayUs)
 
 	// outcome
@@ -478,6 +491,7 @@ func genPlan(r *hx.Rand, id uint64, cfg *genCfg) *plan {
 		}
 	}
 	p.cliAsync = r.Intn(3) == 0
+	p.srvAsync = r.Intn(3) == 0
 	p.cliDelayUs = genDelay(r, cfg.maxDelayUs/8)
 	if !cfg.noMisbehav {
 		switch x := r.Intn(40); {
@@ -492,6 +506,21 @@ func genPlan(r *hx.Rand, id uint64, cfg *genCfg) *plan {
 			if p.cliMode == mRecvFirst {
 				p.cliMode = mSendFirst
 			}
+		case x < 10:
+			p.freeUs = r.Intn(cfg.maxDelayUs/2 + 1)
+			if freeRace {
+				p.cliBehav = bFreeRace
+			}
+		}
+	}
+	if cfg.smallWin {
+		// With a small window a side that sends without reading blocks until the peer reads:
+		// the caller must read while it sends, otherwise the call deadlocks by design.
+		switch p.cliBehav {
+		case bRespOnly:
+			p.cliBehav = bNormal
+		case bAbandon:
+			p.abandonN = 0
 		}
 	}
 	return p.finish()
